@@ -35,6 +35,7 @@ from typing import Any
 
 from happysimulator.core.entity import Entity
 from happysimulator.core.event import Event
+from happysimulator.core.sim_future import SimFuture
 
 logger = logging.getLogger(__name__)
 
@@ -208,8 +209,11 @@ class RWLock(Entity):
 
         acquired = [False]
 
+        wake = SimFuture()
+
         def on_wake():
             acquired[0] = True
+            wake.resolve()
 
         waiter = _Waiter(
             waiter_type=_WaiterType.READER,
@@ -219,7 +223,7 @@ class RWLock(Entity):
         self._waiters.append(waiter)
 
         while not acquired[0]:
-            yield 0.0
+            yield wake  # park until woken: no zero-delay polling
 
         self._read_acquisitions += 1
 
@@ -245,8 +249,11 @@ class RWLock(Entity):
 
         acquired = [False]
 
+        wake = SimFuture()
+
         def on_wake():
             acquired[0] = True
+            wake.resolve()
 
         waiter = _Waiter(
             waiter_type=_WaiterType.WRITER,
@@ -256,7 +263,7 @@ class RWLock(Entity):
         self._waiters.append(waiter)
 
         while not acquired[0]:
-            yield 0.0
+            yield wake  # park until woken: no zero-delay polling
 
         self._write_acquisitions += 1
 
